@@ -11,7 +11,7 @@ EXPLANATION = (
     "(must-replace needs the key, must-create needs it fresh, a generation-conditional write needs the state key); an image on which a "
     "recovery write cannot succeed is a permanent wedge and is reported with the write. Also: must-create attempt keys are clock-derived "
     "(fresh), and the generation carried by the generation-conditional Free write is the one observed with the Pending record (C09-G). "
-    " The lifecycle-side facts this relies on (which call runs on which stored state) are C02-S2/S4 and C05-A2, cited."
+    " (E) every lifecycle path, failed-write exits included, answers exactly once and thereby removes the table entry (C06-P2) - an orphaned entry would make the hash unpayable until restart. The lifecycle-side facts this relies on (which call runs on which stored state) are C02-S2/S4 and C05-A2, cited."
 )
 ASSUMPTIONS = ["CLN datastore mode semantics (must-create, must-replace, create-or-replace, generation compare)", "attempt ids derived from the nanosecond clock do not repeat"]
 
@@ -27,3 +27,6 @@ def run(F, X, rep):
     # lifecycle side of the recovery protocol
     R.s4_mark_failed_guards(C, rep, "C09-L")
     R.a2_pending_pay_only_after_none(C, rep, "C09-L")
+    # in-memory side: every lifecycle path - the failed-write exits included - ends by answering, which removes the table
+    # entry; an entry left behind without a lifecycle would swallow every later HTLC of that hash until restart
+    R.p2_exactly_one_answer(C, rep, "C09-E")
